@@ -181,6 +181,10 @@ def rand_buffer_type(r, spec, namer, space, access):
         return W.A(r.choice([W.S("f32"), W.S("u32"), W.V(4, "f32"), W.V(3, "f32"), W.V(2, "u32"),
                              W.M(4, 4)]), None)
     if k < 0.6 and rw:
+        if r.random() < 0.25:
+            # a bare atomic as the variable's type: the tool may refuse it ("Unsupported type")
+            spec.expect_decline = "unsupported bare atomic"
+            return W.AT(r.choice(["u32", "i32"]))
         return r.choice([W.A(W.AT("i32"), 2), W.A(W.AT("u32"), 4)])
     if k < 0.75:
         return W.A(rand_leaf(r), r.choice([1, 2, 4, 7]))
@@ -296,6 +300,8 @@ def build_graph(r, spec, namer, nfuncs, stages, entries_per_stage=(1, 2), shape=
         for _ in range(r.randint(*entries_per_stage)):
             e = Entry(namer.fresh({"vertex": "vs_", "fragment": "fs_", "compute": "cs_"}[st]), st)
             ents.append(e)
+    if r.random() < 0.5:
+        r.shuffle(ents)  # stages interleaved in declaration order (vertex, fragment, vertex ...)
     spec.entries = ents
     for e in ents:
         if funcs:
@@ -403,12 +409,14 @@ def free_binding(decls, group):
     return b
 
 
-def fam_bind(r, idx, sweep=None):
+def fam_bind(r, idx, sweep=None, pc_only=False):
     """resource bindings of every kind, sparse/unordered indices, call graphs: C02 C03 C04 C13"""
     spec = ShaderSpec()
     spec.families = ["bind"]
     namer = Namer(r)
     ngroups = r.choice([1, 1, 2, 2, 3, 4, 5, 8])
+    if pc_only:
+        ngroups = 0  # the push constant is the only module-scope variable
     sweep = list(sweep or [])
     decls = []
     for gi in range(ngroups):
@@ -433,7 +441,7 @@ def fam_bind(r, idx, sweep=None):
                             group=0, binding=free_binding(decls, 0)))
     r.shuffle(decls)  # declaration order unrelated to index order
     spec.globals = decls
-    if r.random() < 0.4:
+    if r.random() < 0.4 or ngroups == 0:
         ty = r.choice([W.S("f32"), W.V(2, "f32"), W.V(3, "f32"), W.V(4, "f32"), W.V(3, "u32"),
                        W.M(4, 4), W.M(3, 3), W.M(2, 3), W.A(W.V(4, "f32"), 2),
                        W.A(W.V(3, "f32"), 2), W.A(W.S("u32"), 5), None, None])
@@ -441,23 +449,39 @@ def fam_bind(r, idx, sweep=None):
             ty = W.ST(make_struct(r, spec, namer, [], depth=1, f64=0, attrs=0.1))
         if W.align_size(ty, spec.structs)[1] <= 128:
             spec.globals.append(Global(namer.fresh("pc"), "push", ty=ty))
-    if r.random() < 0.2:
+    if r.random() < 0.2 and ngroups:
         spec.globals.append(Global(namer.fresh("pv"), "private", ty=r.choice(
             [W.S("f32"), W.V(4, "f32"), W.S("bool")])))
-    stages = r.choice([[]] if r.random() < 0.04 else
+    stages = r.choice([["fragment", "vertex"], ["vertex", "fragment"], ["compute", "fragment"],
+                       ["vertex", "fragment", "compute"]]) if not ngroups else \
+        r.choice([[]] if r.random() < 0.04 else
                       [["vertex"], ["fragment"], ["compute"], ["vertex", "fragment"],
                        ["vertex", "fragment"], ["vertex", "fragment", "compute"],
                        ["fragment", "compute"], ["compute"], ["vertex", "compute"]])
-    if "compute" in stages and r.random() < 0.3:
+    if "compute" in stages and r.random() < 0.3 and ngroups:
         spec.globals.append(Global(namer.fresh("wg"), "workgroup", ty=r.choice(
             [W.A(W.S("f32"), 8), W.AT("u32"), W.V(4, "f32")])))
     if r.random() < 0.2:
         twin_group(r, spec, namer)
     # private / workgroup / push-constant declarations anywhere among the resources
     r.shuffle(spec.globals)
-    shape = build_graph(r, spec, namer, r.choice([0, 1, 2, 3, 4, 6, 9, 14]), stages)
+    shape = build_graph(r, spec, namer, r.choice([0, 1, 2, 3, 4, 6, 9, 14]), stages,
+                        **({"entries_per_stage": (2, 3), "unreached": 0.0,
+                            "accesses_per_global": (1, 2)} if ngroups == 0 else {}))
     spec.families.append("graph:" + shape)
     pcs = [g for g in spec.globals if g.kind == "push"]
+    if pc_only and pcs and r.random() < 0.7:
+        # every variable of the module is already known to a stage when a second entry point
+        # of that stage comes along; an entry point of ANOTHER stage follows and uses it too
+        sa, sb = r.sample(["vertex", "fragment", "compute"], 2)
+        pre = {"vertex": "vs_", "fragment": "fs_", "compute": "cs_"}
+        a1, a2, b1 = (Entry(namer.fresh(pre[sa]), sa), Entry(namer.fresh(pre[sa]), sa),
+                      Entry(namer.fresh(pre[sb]), sb))
+        for e in (a1, b1):
+            form, e_, s_ = buffer_forms(pcs[0], spec.structs, prefer=r.randrange(8))[0]
+            e.actions.append(Action("access", "top", glob=[pcs[0].name], form=form, expr=e_,
+                                    stmt=None))
+        spec.entries = [a1, a2, b1] + [e for e in spec.entries if r.random() < 0.4]
     if pcs and spec.entries and r.random() < 0.6:
         # the push constant is (also) read by a dedicated helper without return value that one
         # or two entry points call from a random statement position (incl. continuing blocks
@@ -501,10 +525,38 @@ def fam_bind(r, idx, sweep=None):
                     call(e, callee)
     if r.random() < 0.15:
         saturating_entries(r, spec, namer, stages)
+    if r.random() < 0.15 and ngroups and spec.entries:
+        interleaved_entries(r, spec, namer)
     finish_entries(r, spec, namer)
     if r.random() < 0.07:
         alias_binding(r, spec, namer)
     return spec
+
+
+def interleaved_entries(r, spec, namer):
+    """stages interleaved in declaration order (A ... B A): a helper that only the LAST two
+    entry points call reads a resource nothing else touches - per-stage bookkeeping that is
+    carried from one entry point to the next must not hide it from the second stage"""
+    a = spec.entries[0].stage
+    b = r.choice([s for s in ("vertex", "fragment", "compute") if s != a])
+    res = Global(namer.fresh("g_il"), "buffer", space="uniform", access=None, ty=W.V(4, "f32"),
+                 group=0, binding=free_binding([g for g in spec.globals if g.is_resource()], 0))
+    spec.globals.append(res)
+    h = Func(namer.fresh("fn_il_"), r.random() < 0.5)
+    form, e_, s_ = buffer_forms(res, spec.structs, prefer=r.randrange(8))[0]
+    h.actions.append(Action("access", r.choice(S_SITES), glob=[res.name], form=form, expr=e_,
+                            stmt=None))
+    spec.funcs.append(h)
+    pre = {"vertex": "vs_", "fragment": "fs_", "compute": "cs_"}
+    for st in (b, a):
+        e = Entry(namer.fresh(pre[st]), st)
+        if h.returns_value:
+            e.actions.append(Action("call", "let_init", callee=h.name, expr="%s()" % h.name,
+                                    stmt=None))
+        else:
+            e.actions.append(Action("call", r.choice(S_SITES), callee=h.name, expr=None,
+                                    stmt="%s();" % h.name))
+        spec.entries.append(e)
 
 
 def saturating_entries(r, spec, namer, stages):
@@ -568,6 +620,7 @@ def alias_binding(r, spec, namer):
         r.randint(spec.globals.index(first) + 1, len(spec.globals))
     spec.globals.insert(pos, t)
     spec.expect_decline = "DuplicateBinding"
+    spec.must_decline = True
 
 
 def fam_struct(r, idx):
@@ -1002,6 +1055,11 @@ def fam_entry(r, idx):
                 if ty == "f32" and spec.overrides and spec.overrides[-1]["ty"] == "f32" \
                         and r.random() < 0.4:
                     default = "%s * 2.0" % spec.overrides[-1]["name"]
+            same = [o for o in spec.overrides if o["ty"] == ty]
+            if same and r.random() < 0.3:
+                # the default IS another override (which may itself have no default): the
+                # declaration still has a default, so the field stays optional
+                default = r.choice(same)["name"]
             ov = {"name": namer.fresh("ov_"), "ty": ty, "id": oid, "default": default}
             if r.random() < 0.2:
                 # declared through a type alias
@@ -1154,6 +1212,16 @@ def fam_entry(r, idx):
     # a little state so entries can touch something
     spec.globals.append(Global(namer.fresh("g"), "buffer", space="storage", access="read_write",
                                ty=W.A(W.S("f32"), 4), group=0, binding=0))
+    shareable = [s for s in shared_pool
+                 if not W.contains_kind(W.ST(s), spec.structs, ("f64",)) and
+                 not any(m.get("builtin") for m in spec.structs[s].members)]
+    if shareable and r.random() < 0.3:
+        # instance data written by a compute pass: the vertex input struct is also the element
+        # type of a storage buffer
+        s_ = r.choice(shareable)
+        spec.globals.append(Global(namer.fresh("inst"), "buffer", space="storage", access="read",
+                                   ty=r.choice([W.A(W.ST(s_), None), W.A(W.ST(s_), 4), W.ST(s_)]),
+                                   group=0, binding=1))
     if r.random() < 0.6:
         r.shuffle(ents)  # declaration order of entry points is unrelated to their stage
     spec.entries = ents
@@ -1287,7 +1355,15 @@ def fam_const(r, idx):
                              "const %s = vec4<f32>();", "const %s = mat2x2<f32>();",
                              "const %s = array<f32, 2>(1.0, 2.0);",
                              "const %s: vec2<i32> = vec2<i32>(1, 2);",
-                             "const %s = vec3<bool>();"]) % name
+                             "const %s = vec3<bool>();",
+                             "const %s = vec4<f32>(vec2<f32>(1.0, 2.0), 3.0, 4.0);",
+                             "const %s = vec3<f32>(vec2<f32>(0.5, 0.25), 1.0);",
+                             "const %s = vec4<u32>(vec3<u32>(1u, 2u, 3u), 4u);",
+                             "const %s = vec4<f32>(vec2<f32>(1.0), vec2<f32>(2.0));",
+                             "const %s = vec3<f32>(1.0);",
+                             "const %s = mat2x2<f32>(vec2<f32>(1.0, 0.0), vec2<f32>(0.0, 1.0));",
+                             "const %s = array<vec2<f32>, 2>(vec2<f32>(1.0), vec2<f32>(2.0));",
+                             "const %s = vec2<f32>(1.0, 2.0).yx;"]) % name
             c = {"name": name, "decl": decl, "ty": "vector", "bits": None, "skipped": True}
         c.setdefault("skipped", False)
         if not c["skipped"] and c["ty"] in aliases and r.random() < 0.7:
@@ -1408,6 +1484,32 @@ def directed_struct_specs():
     st(s, "L3", [("z", W.ST("L2"), None), ("n", W.V(4, "i32"), None)])
     _storage(s, "root", W.ST("L3"), 0)
     _compute_entry(s)
+    # nesting depths close to WGSL's limit: 9 array levels / a 10-level struct chain above a
+    # struct that is also a vertex input
+    s = new("deep-arrays")
+    st(s, "DeepElem", [("p", W.V(3, "f32"), {"location": 0}), ("v", W.V(3, "f32"), {"location": 1}),
+                       ("c", W.V(3, "f32"), {"location": 2})])
+    t = W.ST("DeepElem")
+    for _ in range(9):
+        t = W.A(t, 2)
+    _storage(s, "deep", t, 0)
+    e = Entry("vs_deep", "vertex")
+    e.params = [{"name": "v", "struct": "DeepElem"}]
+    e.result = {"kind": "position"}
+    s.entries.append(e)
+    s = new("deep-structs")
+    st(s, "Bottom", [("p", W.V(3, "f32"), {"location": 0}), ("q", W.S("f32"), {"location": 1}),
+                     ("r", W.V(3, "f32"), {"location": 2})])
+    prev = "Bottom"
+    for k in range(10):
+        st(s, "Lvl%d" % k, [("n", W.V(4, "u32"), None), ("inner", W.A(W.ST(prev), 1) if k % 2
+                                                         else W.ST(prev), None)])
+        prev = "Lvl%d" % k
+    _storage(s, "root", W.ST(prev), 0)
+    e = Entry("vs_deep", "vertex")
+    e.params = [{"name": "v", "struct": "Bottom"}]
+    e.result = {"kind": "position"}
+    s.entries.append(e)
     # vec3 packing
     s = new("vec3")
     st(s, "Vec3ThenScalar", [("a", W.V(3, "f32"), None), ("b", W.S("f32"), None),
